@@ -415,6 +415,12 @@ static Reg r_stats("nn_stats", [](const Args& a) {
   std::ostringstream a2, b2; nn.Save(a2, false); mm.Save(b2, false);
   if (!(a2.str() == a0.str() && b2.str() == b0.str())) bad("nn-swap", "std::swap does not exchange the two trees back");
   (void)s1; (void)n1; (void)k1; (void)l1; (void)h1; (void)m1; (void)d1; (void)m2; (void)d2;
+  // Initialize with a bucket size outside [0, maxbucket] throws GeographicErr and "the state of the NearestNeighbor is unchanged"
+  for (int bad_bucket : {NC::maxbucket + 1, -1}) {
+    std::ostringstream b4; nn.Save(b4, false); std::string e = guarded([&] { nn.Initialize(pts2, df, bad_bucket); }); std::ostringstream a4; nn.Save(a4, false);
+    if (e != "!E") bad("nn-initialize-throws", "Initialize with bucket = " + std::to_string(bad_bucket) + " did not throw GeographicErr (" + e + ")");
+    else if (a4.str() != b4.str() || nn.NumPoints() != n) bad("nn-initialize-throws", "Initialize threw but the object changed");
+  }
 });
 
 inline std::string S(long long v) { return std::to_string(v); }
